@@ -70,3 +70,16 @@ pub use user_access::UserActionsTrait;
 /// Module with recovery algorithms
 ///
 pub(crate) mod recovery;
+
+/// Verification hooks (only with `--cfg parol_verif`): read-only access to crate-private
+/// algorithms for external property checks.
+#[cfg(parol_verif)]
+pub mod verif {
+    pub use super::recovery::EditOp;
+    use crate::TerminalIndex;
+
+    /// The edit script the error recovery computes to turn `act` into `exp`
+    pub fn levenshtein_distance(act: &[TerminalIndex], exp: &[TerminalIndex]) -> (usize, Vec<EditOp>) {
+        super::recovery::Recovery::levenshtein_distance(act, exp)
+    }
+}
